@@ -36,9 +36,9 @@ ASSUMPTIONS = [
     "corrections are only applied to payloads in their documented domain (colour / illumination: trichromatic data; drift, curvature, translation, perspective: 2-D)",
 ]
 FLOORS = {
-    "quick": {"contract:call_observed": 700, "input_untouched_without_overwrite": 300, "same_object_with_overwrite": 300, "pixels_equal_correct_array": 650, "metadata_is_input_plus_updates": 550,
+    "quick": {"contract:call_observed": 700, "input_untouched_without_overwrite": 300, "same_object_with_overwrite": 300, "construction_equals_overwrite": 1000, "pixels_equal_correct_array": 650, "metadata_is_input_plus_updates": 550,
               "series_equals_per_slice": 150, "neutral_keeps_pixels": 100},
-    "thorough": {"contract:call_observed": 7000, "input_untouched_without_overwrite": 3000, "same_object_with_overwrite": 3000, "pixels_equal_correct_array": 6500, "metadata_is_input_plus_updates": 5500,
+    "thorough": {"construction_equals_overwrite": 10000, "contract:call_observed": 7000, "input_untouched_without_overwrite": 3000, "same_object_with_overwrite": 3000, "pixels_equal_correct_array": 6500, "metadata_is_input_plus_updates": 5500,
                  "series_equals_per_slice": 1500, "neutral_keeps_pixels": 1000},
 }
 SHARD_TIMEOUT = {"quick": 1500, "thorough": 7200}
@@ -253,6 +253,19 @@ def run_shard(spec, R):
                     ref = skimage.img_as_float(obj).astype(np.float32) if neutral_as_float else obj
                     R.check(np.shape(res) == ref.shape and np.array_equal(np.asarray(res).astype(ref.dtype), ref), "neutral_keeps_pixels", {"correction": label, "input": kind, "overwrite": overwrite})
                 R.sig([label, kind, str(getattr(obj, "dtype", "")), overwrite], nontrivial=(not neutral) or "series" in kind, cls=label)
+                # the third way of applying a correction to an image: handing it over at construction
+                # (`transformations=[...]`); the image built that way equals the image corrected in place
+                if ok and overwrite and isinstance(obj, darsia.Image) and label != "drift_active":
+                    if kmeans:
+                        cv2.setRNGSeed(0)
+                    n_before = R.counters["contract:call_observed"]
+                    okc, built = R.guarded(f"construct_with:{label}", lambda: type(obj)(obj.img.copy(), transformations=[corr], **copy.deepcopy(obj.metadata())), key=lambda e, w: key)
+                    if okc:
+                        same = (built.img.dtype == res.img.dtype and built.img.shape == res.img.shape and np.array_equal(built.img, res.img, equal_nan=True)
+                                and snap(built.metadata()) == snap(res.metadata()))
+                        R.check(same, "construction_equals_overwrite",
+                                lambda: {"correction": label, "input": kind, "built": [str(built.img.dtype), list(built.img.shape)], "in_place": [str(res.img.dtype), list(res.img.shape)],
+                                         "correction_called": R.counters["contract:call_observed"] > n_before}, group=label)
 
     import contextlib
     import io
